@@ -155,6 +155,15 @@ CHECKS['C09'] = dict(
           'SQLite statement (else the run is a harness error, not a finding).'),
     note='trusted: lexers and scope checker for the seven engines that cannot be executed offline; only text-level well-formedness is claimed')
 
+CHECKS['C05'] = dict(
+    category='exploration', design_ref='DESIGN.md 4/C05',
+    technique='runtime monitor: generated ground-typed programs through the real type checker (signatures compared with the generator\'s types), run-time values checked against inferred column types, single-point type corruptions compiled under permutations of rules and conjuncts',
+    text=('Programs whose column types are ground by construction must be accepted with exactly the generated signatures (sqlite with '
+          'type_checking, and psql / duckdb / clickhouse which check by default); values returned by SQLite must inhabit the inferred types; six '
+          'kinds of single-point type corruption must be rejected with TypeErrorCaughtException under every tried order of the corrupted rule\'s '
+          'conjuncts and of the rules.'),
+    note='trusted: the generator\'s typing discipline; rendering via reference_algebra.RenderType')
+
 NOT_YET = 'check not built yet in this session (planned in DESIGN.md section 4); not claimed until it runs clean on the unchanged tree'
 
 
